@@ -7,7 +7,7 @@ from ..ref import ec, wire
 ID = "C04"
 RULE = (
     "cases: histories over the mutation API (add/prepend/insert/set input and output, set_version, set_nlocktime, clone) interleaved with sighash/sign calls of "
-    "every cache-filling flag class, executed on ONE live Transaction; bounded-exhaustive over a 21-symbol alphabet (incl. replacements that change exactly one field: sequence, vout, unlocking script, output value, output script) up to depth 3 (quick) / 4 (thorough) plus long random histories. "
+    "every cache-filling flag class, executed on ONE live Transaction; bounded-exhaustive over a 25-symbol alphabet (incl. replacements that change exactly one field: sequence, vout, unlocking script, output value, output script) up to depth 3 (quick) / 4 (thorough) plus long random histories. "
     "After EVERY step three probing sighash calls run on a clone of the live object and on a fresh parse of its serialisation; every sighash/sign step is also "
     "repeated on a fresh parse. non-trivial = distinct history containing >=1 mutator after >=1 cache-filling call"
 )
@@ -24,6 +24,8 @@ ALPHABET = [
     "set_version", "set_nlocktime", "clone", "sh41", "sh42", "shc1", "sh43", "sh01",
     # replacements that change exactly ONE field of the existing element (a cache keyed on "did X change" must notice each of them)
     "set_input_seq", "set_input_vout", "set_input_script", "set_output_value", "set_output_script",
+    # bulk appends and inserts exactly at the end position (separate code paths from add_* / insert-in-the-middle)
+    "add_inputs2", "add_outputs2", "insert_input_end", "insert_output_end",
 ]
 FILLERS = {"sh41", "sh42", "shc1", "sh43"}
 PROBES = [
@@ -56,6 +58,22 @@ def step_of(sym, pos, model, r=None):
     t = pos * 31 + 7
     n_in, n_out = len(model.ins), len(model.outs)
     pick = (lambda n: (pos % n) if r is None else r.randrange(n))
+    if sym == "add_inputs2":
+        a, b = tin(t), tin(t + 1)
+        model.ins += [a, b]
+        return {"op": "add_inputs", "ins": [a, b]}
+    if sym == "add_outputs2":
+        a, b = tout(t), tout(t + 1)
+        model.outs += [a, b]
+        return {"op": "add_outputs", "outs": [a, b]}
+    if sym == "insert_input_end":
+        i = tin(t)
+        model.ins.append(i)
+        return {"op": "insert_input", "i": n_in, "in": i}
+    if sym == "insert_output_end":
+        o = tout(t)
+        model.outs.append(o)
+        return {"op": "insert_output", "i": n_out, "out": o}
     if sym in ("add_input", "prepend_input", "insert_input"):
         i = tin(t)
         if sym == "add_input":
